@@ -1210,6 +1210,17 @@ pub fn check(rec: &RunRecord) -> Vec<Violation> {
         }
     }
 
+    // ---------------- C14: a command the agent sends from its on_stop handler is forwarded like any other.
+    if clean_end && sc.fake.is_none() && sc.fake_persist.is_none() && rec.agent_ends.first().map(|e| e.as_ref().map(|e| e.result == "Ok").unwrap_or(false)).unwrap_or(false) {
+        let sent_on_stop = rec.truth.first().map(|t| t.iter().any(|(_, e)| matches!(e, TruthEv::Sent { value, .. } if *value == super::model::ON_STOP_VALUE))).unwrap_or(false);
+        if sent_on_stop {
+            let arrived = rec.hist.target_frames.iter().any(|f| std::str::from_utf8(&f.body).ok().and_then(|t| t.trim().parse::<i32>().ok()) == Some(super::model::ON_STOP_VALUE));
+            if !arrived {
+                out.push(Violation::new("C14", "C14.sent_lost", "on_stop", format!("the command {} that the agent sent from its on_stop handler was never forwarded to its target", super::model::ON_STOP_VALUE)));
+            }
+        }
+    }
+
     // ---------------- C14 agent-sent commands.
     if let (Some(qs), true) = (q, clean_end) {
         let mut sent: BTreeMap<i32, Vec<(i32, bool)>> = BTreeMap::new();
